@@ -269,6 +269,7 @@ def call_contract(ex, state, node, name, args, rt):
                 ns[fname] = ArrView(ex, st, v)
         ns["defined"] = lambda a, i: a.defined(i)
         ns["length"] = lambda a: a.length
+        ns["len_"] = lambda a: a.length
         ns["alive"] = lambda a: a.alive
         if extra:
             ns.update(extra)
